@@ -8,6 +8,7 @@ import (
 	"encoding/json"
 	"fmt"
 	"os"
+	"strings"
 	"sync"
 	"time"
 
@@ -112,4 +113,26 @@ func loadReplay(path string, v any) error {
 		return err
 	}
 	return json.Unmarshal(w.Case, v)
+}
+
+// banReasonClass maps a ban reason to a stable class.
+func banReasonClass(reason string) string {
+	for _, c := range [][2]string{
+		{"header with insufficient work", "header-insufficient-work"},
+		{"outline with insufficient work", "outline-insufficient-work"},
+		{"wrong missing transactions", "wrong-missing-transactions"},
+		{"empty transaction set", "empty-transaction-set"},
+		{"too many strikes", "subnet-strikes"},
+		{"peer sent invalid blocks", "blocks-rejected-by-manager"},
+		{"sent invalid block", "invalid-block-in-validated-batch"},
+		{"too far in the future", "future-block"},
+		{"is invalid", "relayed-block-rejected"},
+		{"reorg failed", "relayed-block-rejected"},
+		{"missing parent", "relayed-block-rejected"},
+	} {
+		if strings.Contains(reason, c[0]) {
+			return c[1]
+		}
+	}
+	return "other"
 }
